@@ -7,6 +7,8 @@
 #include <cstdarg>
 
 #include "engines/libobs.h"
+#define MC_ALLOCFAULT_IMPL
+#include "mc/allocfault.h"
 #include "mc/harness.h"
 #include "ref/reassembly.h"
 #include "ref/wire.h"
@@ -961,6 +963,7 @@ struct Inst
     int base;
     bool modified;
     Bytes bytes;
+    int abortAt = 0;   // n > 0: the n-th allocation inside this decode call fails (the call ends with std::bad_alloc)
 };
 
 static Packet mkPacket(uint8_t mt, size_t len, unsigned tag)
@@ -1075,6 +1078,25 @@ static BaseHist baseHistory(int which)
 
 enum FaultKind { F_DROP, F_DUP_AFTER, F_DUP_LATER, F_SWAP, F_CVER, F_CTYPE, NFAULT };
 static const char* kFaultName[NFAULT] = {"drop", "dup", "dup2", "swap", "cver", "ctyp"};
+// Aborted decode calls (environment fault: memory exhaustion): kinds NFAULT + 2 * (n - 1) + r, n = 1 .. MAXABORT: the n-th allocation
+// inside the decode call of the frame at that position fails; r = 0: the frame is lost with the call, r = 1: the caller presents
+// the same frame again afterwards (retry). A decode call of the base histories makes fewer than MAXABORT allocations; an n beyond
+// the allocations of the actual call is not a fault and the sequence is skipped.
+constexpr int MAXABORT = 14;
+constexpr int NFAULT_ALL = NFAULT + 2 * MAXABORT;
+static std::string faultName(int kind)
+{
+    if (kind < NFAULT)
+        return kFaultName[kind];
+    return fmt("%s%d", (kind - NFAULT) % 2 ? "abortretry" : "abort", (kind - NFAULT) / 2 + 1);
+}
+static int faultKind(const std::string& name)
+{
+    for (int k = 0; k < NFAULT_ALL; ++k)
+        if (faultName(k) == name)
+            return k;
+    return -1;
+}
 
 static bool applyFault(std::vector<Inst>& seq, int kind, size_t pos)
 {
@@ -1099,6 +1121,16 @@ static bool applyFault(std::vector<Inst>& seq, int kind, size_t pos)
         case F_CVER: seq[pos].bytes[0] = (uint8_t) (seq[pos].bytes[0] == 1 ? 2 : 1); seq[pos].modified = true; return true;
         case F_CTYPE: seq[pos].bytes[4] = (uint8_t) (seq[pos].bytes[4] == 1 ? 3 : 1); seq[pos].modified = true; return true;
     }
+    if (kind >= NFAULT && kind < NFAULT_ALL)
+    {
+        if (seq[pos].abortAt)
+            return false;
+        if ((kind - NFAULT) % 2)
+            seq.insert(seq.begin() + pos + 1, seq[pos]);   // the retry: same bytes, presented again
+        seq[pos].abortAt = (kind - NFAULT) / 2 + 1;
+        seq[pos].modified = true;   // an aborted call is not an arrival of the frame as far as the recovery clause is concerned
+        return true;
+    }
     return false;
 }
 
@@ -1111,13 +1143,48 @@ static std::string showFault(const FaultCase& c)
 {
     std::string s = fmt("k=fault;base=%d;f=", c.base);
     for (size_t i = 0; i < c.faults.size(); ++i)
-        s += fmt("%s%s@%d", i ? "," : "", kFaultName[c.faults[i].first], c.faults[i].second);
+        s += fmt("%s%s@%d", i ? "," : "", faultName(c.faults[i].first).c_str(), c.faults[i].second);
     return s;
 }
 
-static void judgeFaulted(W& w, const BaseHist& h, const std::vector<Inst>& seq)
+// One decode call in which the n-th allocation fails. Only the library's own allocations are numbered (armed directly around the
+// call). Returns false if the call made fewer than n allocations (no fault happened).
+static bool decodeAborted(W& w, Decoder& d, const Bytes& f, int n, std::vector<obs::PObs>& out)
+{
+    uint8_t* copy = static_cast<uint8_t*>(malloc(f.size() ? f.size() : 1));
+    memcpy(copy, f.data(), f.size());
+    std::vector<std::shared_ptr<Packet>> pk;
+    bool thrown = false;
+    mc::af::arm(n);
+    try
+    {
+        pk = d.decode(copy, f.size());
+    }
+    catch (const std::bad_alloc&)
+    {
+        thrown = true;
+    }
+    const bool fired = mc::af::disarm();
+    free(copy);
+    if (fired && !thrown)
+        w.fail("aborted-call:allocation-failure-swallowed", fmt("allocation %d of the decode call failed, the call returned %zu packet(s) instead of reporting the failure", n, pk.size()));
+    for (auto& p : pk)
+        if (p)
+            out.push_back(obs::observe(*p));
+    return fired;
+}
+
+// oracle 'M': lock-step with the reassembly model + integrity + recovery (C06); sequences with an aborted call are judged by
+// integrity and recovery only (after an aborted call the decoder may legitimately be in its state before or after the frame).
+// oracle 'S': every delivery for an endpoint that had no aborted call is compared with a solo decoder fed only that endpoint's
+// frames (C18: a fault while decoding one endpoint's frame must not change what the others get).
+static void judgeFaulted(W& w, const BaseHist& h, const std::vector<Inst>& seq, char oracle = 'M')
 {
     Sys s;
+    bool anyAbort = false;
+    for (auto& i : seq)
+        anyAbort = anyAbort || i.abortAt;
+    bool tainted[NEP] = {false, false, false, false};
     // expected recoveries: position in seq -> sent ids that must be delivered there
     std::map<size_t, std::vector<int>> mustDeliver;
     for (int ep = 0; ep < NEP; ++ep)
@@ -1145,7 +1212,35 @@ static void judgeFaulted(W& w, const BaseHist& h, const std::vector<Inst>& seq)
     for (size_t i = 0; i < seq.size(); ++i)
     {
         std::string where = fmt("position %zu (base frame %d%s)", i, seq[i].base, seq[i].modified ? ", corrupted" : "");
-        auto got = step(w, s, seq[i].bytes, false, h.frameEp[seq[i].base], 'M', where);
+        std::vector<obs::PObs> got;
+        const int ep = h.frameEp[seq[i].base];
+        if (seq[i].abortAt)
+        {
+            where += fmt(", allocation %d of the call fails", seq[i].abortAt);
+            if (!decodeAborted(w, s.d, seq[i].bytes, seq[i].abortAt, got))
+                return;   // the call makes fewer allocations: not a fault sequence
+            tainted[ep] = true;
+        }
+        else if (oracle == 'S')
+        {
+            got = decodeCopy(w, s.d, seq[i].bytes);
+            if (!tainted[ep])
+            {
+                std::vector<obs::PObs> sg = decodeCopy(w, s.solo[ep], seq[i].bytes);
+                if (sg.size() != got.size())
+                    w.fail("isolation:delivery-count-differs-from-solo-decoder",
+                           where + fmt(": shared decoder returned %zu packet(s), a decoder fed only endpoint %c's frames returned %zu", got.size(), kEp[ep].name, sg.size()));
+                else
+                    for (size_t q = 0; q < got.size(); ++q)
+                    {
+                        std::string d = diffObs(got[q], sg[q]);
+                        if (!d.empty())
+                            w.fail("isolation:delivered-packet-differs-from-solo-decoder:" + d, where + ": shared " + obs::show(got[q]) + " solo " + obs::show(sg[q]));
+                    }
+            }
+        }
+        else
+            got = step(w, s, seq[i].bytes, false, ep, anyAbort ? 'N' : 'M', where);
         w.add(mc::C_TRANS, 1);
         oh = mc::mix(oh, got.size());
         // (1) integrity: every delivered packet is byte-identical to one sent packet
@@ -1202,14 +1297,11 @@ static void replayFault(W& w, const std::string& cs)
         size_t at = f.find('@');
         if (at == std::string::npos)
             continue;
-        int kind = -1;
-        for (int k = 0; k < NFAULT; ++k)
-            if (f.substr(0, at) == kFaultName[k])
-                kind = k;
+        int kind = faultKind(f.substr(0, at));
         if (kind >= 0)
             applyFault(seq, kind, (size_t) atoi(f.c_str() + at + 1));
     }
-    judgeFaulted(w, h, seq);
+    judgeFaulted(w, h, seq, kv["oracle"] == "S" ? 'S' : 'M');
 }
 
 static void enumFaults(W& w, const BaseHist& h, FaultCase& fc, const std::vector<Inst>& seq, int remaining, int total)
@@ -1224,7 +1316,8 @@ static void enumFaults(W& w, const BaseHist& h, FaultCase& fc, const std::vector
         w.add(mc::C_STATES, seq.size());
         return;
     }
-    for (int kind = 0; kind < NFAULT; ++kind)
+    // aborted calls take part in all sequences of up to two faults (also as both of them)
+    for (int kind = 0; kind < (total <= 2 ? NFAULT_ALL : NFAULT); ++kind)
         for (size_t pos = 0; pos < seq.size(); ++pos)
         {
             std::vector<Inst> n = seq;
@@ -1378,11 +1471,11 @@ int main(int argc, char** argv)
                     ts.push_back({b, -1, 0});
                     continue;
                 }
-                for (int k = 0; k < NFAULT; ++k)
+                for (int k = 0; k < (nf <= 2 ? NFAULT_ALL : NFAULT); ++k)
                     for (size_t p = 0; p < bases[b].frames.size(); ++p)
                         ts.push_back({b, k, (int) p});
             }
-            run.round(fmt("all fault sequences with exactly %d fault(s) on 6 base histories", nf), ts.size(), [&, nf, ts](W& w, uint64_t o) {
+            run.round(fmt("all fault sequences with exactly %d fault(s) on 6 base histories%s", nf, nf && nf <= 2 ? " (incl. decode calls aborted at every allocation, with and without retry)" : ""), ts.size(), [&, nf, ts](W& w, uint64_t o) {
                 const T& t = ts[o];
                 const BaseHist& h = bases[t.base];
                 FaultCase fc;
